@@ -12,7 +12,7 @@ use std::sync::Mutex;
 const TOKENS: [&str; 12] = ["word", "\n", "*/", "/*", "//", "\"\"\"", "'''", "\\", "#", "`", "\"", "'"];
 const TOKEN_NAMES: [&str; 12] = ["word", "NL", "*/", "/*", "//", "\"\"\"", "'''", "backslash", "#", "backtick", "\"", "'"];
 const SYNTAXES: [&str; 3] = ["line", "block", "attr"];
-const POSITIONS: [&str; 8] = ["type", "field", "unit-variant", "variant", "variant-field", "alias", "unit-enum-type", "algebraic-enum-type"];
+const POSITIONS: [&str; 10] = ["type", "field", "unit-variant", "variant", "variant-field", "alias", "unit-enum-type", "algebraic-enum-type", "algebraic-unit-variant", "algebraic-struct-variant"];
 
 #[derive(Clone, Debug)]
 pub struct Case {
@@ -32,7 +32,8 @@ pub fn gen(ch: &mut Chooser, max_len: usize) -> Case {
     let syntax = *ch.pick("syntax", &SYNTAXES);
     let position = *ch.pick("position", &POSITIONS);
     let lang = *ch.pick("lang", &ALL_LANGS);
-    let companion = ch.choose("companion_line_doc", 3);
+    // quick tier: the companion dimension for words of up to two tokens (the three-token words run without it)
+    let companion = if len <= 2 || max_len >= 4 { ch.choose("companion_line_doc", 3) } else { 0 };
     Case { word, spaced, syntax, position, lang, companion }
 }
 
@@ -87,11 +88,20 @@ pub fn program_with(position: &str, all: Vec<Doc>) -> File {
             v.docs = docs("variant");
             v
         },
-        Variant::new("Rec", VKind::Struct(vec![{
-            let mut f = Field::new("inner", Ty::Prim("bool"));
-            f.docs = docs("variant-field");
-            f
-        }])),
+        {
+            let mut v = Variant::new("Rec", VKind::Struct(vec![{
+                let mut f = Field::new("inner", Ty::Prim("bool"));
+                f.docs = docs("variant-field");
+                f
+            }]));
+            v.docs = docs("algebraic-struct-variant");
+            v
+        },
+        {
+            let mut v = Variant::new("Nil", VKind::Unit);
+            v.docs = docs("algebraic-unit-variant");
+            v
+        },
     ]);
     e.docs = docs("algebraic-enum-type");
     let mut a = Item::new("Name", IKind::Alias(Ty::Prim("String")));
